@@ -167,6 +167,23 @@ add("C03", "Hypothesis-generated batches / parameters / hyper-parameters per los
     "the call (the function performs its own update); SAC permutation invariance with a deterministic probe policy.",
     "DESIGN.md §5 C03")
 
+add("C12", "Hypothesis-generated batches / advantages / old log-probabilities placing ratios on each side of the clip range / policy heads and critic shapes vs float64 value references and independently written jax objectives for gradients",
+    "Policy-gradient pseudo-losses (REINFORCE with/without baseline, actor-critic, A2C), ppo_loss (value, critic gradient, actor gradient "
+    "at unchanged parameters / all samples clipped on the favoured side / mixed batches, with an exact zero-weight clause for "
+    "favoured-clipped samples), DPG / SALE / MR.Q policy losses, sac_actor_loss with (N,1) and (N,) critics, temperature loss and the sign "
+    "of the first alpha step; the jitted update wrappers must move the actor by -lr*grad and leave critics/embeddings byte-identical.",
+    "PPO coefficients 0.5 / 0.01 taken from the code (the docstring does not state them); shapes from signature pools; ill-conditioned "
+    "float32 log-densities are labelled and skipped.",
+    "DESIGN.md §5 C12")
+add("C13", "Hypothesis-generated observations / parameters / keys per policy head vs closed-form float64 references and standardised-noise invariance; exact Poisson-binomial tail bounds on exploration counts in recorded DQN-family and tabular runs",
+    "Softmax probabilities / log-probabilities / entropy, Gaussian and tanh-Gaussian log-density, per-dimension entropy and samples "
+    "(single observation, batches 1-8, action dims 1-4, logits to +-1e4, log-variances beyond the clip range), sampling frequencies, greedy "
+    "and epsilon-greedy selection with ties; in DQN / Nature-DQN / DDQN / PER runs (warm-up 0-40 % of the budget) every step without a "
+    "recorded random draw must be greedy on the current online network and exploration counts per schedule window must lie inside exact "
+    "tail intervals at 1e-9; tabular loops with epsilon 0 / 1 / intermediate.",
+    "Tabular runs use learning rate 0 (the live table is not observable otherwise); epsilon continuation with global_step > 0 not generated.",
+    "DESIGN.md §5 C13, §11")
+
 NOT_APPLICABLE = {}
 
 
